@@ -70,6 +70,12 @@ package mhprimary
 //@   ensures @roll err == nil ==> (old(cp.length) >= cp.maxFileSize ==> cp.fileNum == wrapu32(old(cp.fileNum) + 1) && cp.length == len(key) + len(value) + 4) && (old(cp.length) < cp.maxFileSize ==> cp.fileNum == old(cp.fileNum) && cp.length == old(cp.length) + len(key) + len(value) + 4)
 //@   ensures @start-below-limit err == nil ==> cp.length - (len(key) + len(value) + 4) < cp.maxFileSize
 //@   ensures @work err == nil ==> work == len(key) + len(value) + 4
+// record layout (writer side): a 4-byte little-endian size prefix holding len(key)+len(value), the
+// key, the value - what Get reads back (4 + blk.Size bytes at the location, key and value split
+// by the multihash reader) and what the GC scans follow
+//@   assert at before call (*bufio.Writer).Write#0: @layout-size-prefix len($a1) == 4 && le32(bytes($a1), 0) == len(key) + len(value)
+//@   assert at before call (*bufio.Writer).Write#1: @layout-key $a1 == key
+//@   assert at before call (*bufio.Writer).Write#2: @layout-value $a1 == value
 
 //@ func (gc *primaryGC) close()  property C17
 //@   requires gc.stop != nil && !closed(gc.stop)
